@@ -812,9 +812,14 @@ class Blockwise(ArrayExpr):
                 if br is None:
                     continue
                 first, last = br
-                if last < first:
-                    continue
                 ind = out_ind[axis]
+                if last < first:
+                    if isinstance(new_adjust_chunks.get(ind), (tuple, list)):
+                        # Nothing selected: the inputs keep one empty block,
+                        # for which an explicit per-block size list has no
+                        # entry (and the function may not accept it).
+                        return None
+                    continue
                 if ind in new_adjust_chunks:
                     val = new_adjust_chunks[ind]
                     if isinstance(val, (tuple, list)):
